@@ -7,8 +7,9 @@
    The machine side (Spec/Probe.v) is written from the SC&MP / SARK documentation with every constant
    spelled out.
 
-   Not proved here (carried by the correspondence run and the independent oracle on every run): the slicing
-   of the vcpu block by get_processor_status and the parsing of the two sver encodings. *)
+   Not proved here (carried by the correspondence run and the independent oracle on every run): the
+   parsing of the two sver encodings, and the chunking / retransmission of the reads themselves (properties
+   C07 and C06). *)
 From Coq Require Import ZArith String List Bool.
 Require Import Rig.Generated.GenProbe Rig.Model.Base Rig.Model.Probe Rig.Spec.Probe
                Rig.Proofs.Probe Rig.Proofs.ProbeMachine.
@@ -134,7 +135,27 @@ Theorem C14_router_counters_roundtrip :
     router_diagnostics rd = Ok ws.
 Proof. exact router_counters_roundtrip. Qed.
 
+(* Per-core status: every field of ProcessorStatus is the little-endian value found at its documented
+   place in the core's 128-byte vcpu block (registers, psr/sp/lr, rt_code, phys_cpu, cpu_state, mailboxes,
+   sw_count/file/line, time, the NUL-stripped application name, iobuf pointer, app id, the three version
+   bytes of sw_ver, user0-3). *)
+Theorem C14_status_slicing :
+  forall (rd : reader) base p d,
+    status_block_valid d ->
+    read_sv_int rd sv_vcpu_base = Ok base ->
+    rd (base + VCPU_SIZE * p) VCPU_SIZE = d ->
+    processor_status rd p = Ok (status_truth d).
+Proof. exact status_slicing. Qed.
+
+Theorem C14_vcpu_base_read :
+  forall rd base, is_word base ->
+    rd (SV_BASE + SV_VCPU_BASE) 4 = le_encode 4 base -> read_sv_int rd sv_vcpu_base = Ok base.
+Proof. exact read_vcpu_base_ok. Qed.
+
 (* Non-vacuity. *)
+Example C14_status_block_satisfiable : status_block_valid ex_block.
+Proof. exact ex_block_valid. Qed.
+
 Example C14_chip_state_satisfiable : cs_valid ex_cs.
 Proof. exact ex_cs_valid. Qed.
 
